@@ -28,6 +28,8 @@ func c16StringProducers(s string) []c16Producer {
 		{"values-listing", BI("values", "{k: "+q+"}") + "[0]", "", ""},
 		{"variable", "held", Var("held", q) + "\n", ""},
 		{"logical-result", "(nil || " + q + ")", "", ""},
+		{"property-named-like-builtin", "({" + B["len"] + ": " + q + ", " + B["keys"] + ": 0})." + B["len"], "", ""},
+		{"builtin-callback", "idf(" + B["values"] + ")({k: " + q + "})[0]", "", ""},
 		// an element of one of several arrays built from the same base; a closure declared in a block / a branch that has
 		// finished (and whose storage may have been reused since) handing back what it captured
 		{"appended-element", "ap1[3]", Var("apb", "[1, 2, 3]") + "\n" + Var("ap1", BI("append", "apb", q)) + "\n" + Var("ap2", BI("append", "apb", `"other"`)) + "\n" + Var("ap3", BI("append", "apb", "0", "0")) + "\n", ""},
@@ -70,6 +72,10 @@ func c16NumberProducers(n int) []c16Producer {
 		{"object-property", "({k: " + N + "}).k", "", ""},
 		{"bangla-digits", BanglaDigits(N, nil), "", ""},
 		{"division", "(" + N + " * 4 / 4)", "", ""},
+		{"builtin-alias", "ral(" + N + " + 0.2)", Var("ral", B["round"]) + "\n", ""},
+		{"builtin-callback", "idf(" + B["max"] + ")(" + N + ", " + N + " - 1)", "", ""},
+		{"builtin-in-array", "[" + B["min"] + ", " + B["pow"] + "][1](" + N + ", 1)", "", ""},
+		{"property-named-like-builtin", "({" + B["min"] + ": " + N + ", " + B["max"] + ": 0})." + B["min"], "", ""},
 		{"appended-element", "ap1[3]", Var("apb", "[1, 2, 3]") + "\n" + Var("ap1", BI("append", "apb", N)) + "\n" + Var("ap2", BI("append", "apb", "-77")) + "\n", ""},
 		{"closure-from-block", "blk()", Var("blk", "nil") + "\n{ " + Var("hid", N) + " " + Fun("gb", "", " "+Ret("hid")+" ") + " blk = gb; }\n{ " + Var("hid2", "-77") + " " + Var("hid3", "0") + " }\n", ""},
 		{"closure-from-branch", "mkb()()", Fun("mkb", "", " "+Var("loc", N)+" "+If(True(), "{ "+Fun("gi", "", " "+Ret("loc")+" ")+" "+Ret("gi")+" }")+" ") + "\n" + Fun("filler", "loc", " "+Var("z", "loc")+" "+Ret("z")+" ") + "\n" + "filler(-77);" + "\n", ""},
